@@ -198,6 +198,9 @@ def run(ctx: Ctx) -> int:
             p = int(rng.integers(-6, 7)) if mode < 0.85 else int(rng.integers(-40, 40))
             l.append((c, p))
         sum_cases.append(l)
+    # many terms (the sum over the stabiliser terms of a component with a dozen T gates has hundreds): every count around the powers of two
+    for n in ([63, 64, 65, 100, 127, 129, 200, 257, 1000] if quick else [31, 33, 63, 64, 65, 66, 100, 127, 128, 129, 191, 192, 193, 200, 255, 256, 257, 511, 513, 1000, 1025, 3000]):
+        sum_cases.append([(rand_q4(rng, "small"), int(rng.integers(-3, 4))) for _j in range(n)])
     sum_impl = []
     for l in sum_cases:
         s = ExactScalarArray(jnp.array([c for c, _ in l], dtype=jnp.int32), jnp.array([p for _, p in l], dtype=jnp.int32)).sum()
